@@ -23,7 +23,7 @@ def conservative_fallback_keys():
     def present(member, options):
         try:
             explained = member.explain(options)
-        except EvaluationError:
+        except Exception:  # noqa: BLE001
             return set(options.keys())
         return {k for k in explained if dotted_key_exists(k, options)}
 
